@@ -15,11 +15,14 @@ PROPS = {
     "C01": dict(
         level="exploration",
         technique="runtime monitor: generated command sequences with clock advances run on the real CommandExecutor (through the production RESP decoder and command parser) in lock-step with an independent Redis reference model; reply and full visible keyspace compared after every step; deterministic shrinking",
-        level_text="Seeded sequences of 1-60 client commands over 4 keys (strings, counters, keys/expiry, lists, sets, hashes, sorted sets; boundary integers/indices/floats, every option combination, duplicate members, wrong arity) interleaved with clock advances that land on, just before and just after deadlines (active, lazy and TTL-manager expiry paths) are executed on a fresh CommandExecutor and on an independent model of Redis 7 semantics written from Redis behaviour. After every command the reply must satisfy the model's expectation and the visible keyspace (KEYS, TYPE, full value, PTTL through the public command set) must equal the model's. Three quarters of the sequences use arguments Redis accepts ('clean', so they run deep into the state space), one quarter is hostile. The first divergence of a sequence is shrunk and reported with the model branch that applies.",
+        level_text="Seeded sequences of 1-60 client commands over 4 keys (strings, counters, keys/expiry, lists, sets, hashes, sorted sets; boundary integers/indices/floats, every option combination, duplicate members, wrong arity) interleaved with clock advances that land on, just before and just after deadlines (active, lazy and TTL-manager expiry paths) are executed on a fresh CommandExecutor and on an independent model of Redis 7 semantics written from Redis behaviour. After every command the reply must satisfy the model's expectation and the visible keyspace (KEYS, TYPE, full value, PTTL through the public command set) must equal the model's. Three quarters of the sequences use arguments Redis accepts ('clean', so they run deep into the state space), one quarter is hostile. The first divergence of a sequence is shrunk and reported with the model branch that applies. A second leg runs string/key sequences through a one-shard ShardedActorState with a manual clock, serving plain GET/SET through the generic, fast, pooled or batch entry path (often right after a clock advance), against the same model.",
         level_note="the reference model (harness/src/model.rs) is the stand-in for Redis - no Redis binary exists in the sandbox; comparisons that are deliberately loose are: unordered replies as multisets, SPOP/RANDOMKEY as 'a member / a live key' with the model following the server's choice, floats by value (1e-9 relative), error replies by class, and when two independent faults are present at once (bad argument and wrong-typed key) either error is accepted; bitmaps, SORT, SCAN cursors, OBJECT/DEBUG/CONFIG are outside the model (covered for 'changes nothing on failure' by C17)",
         rule="case = one command sequence with clock advances; distinct_nontrivial = distinct (command + option keywords, reply kind) pairs observed, counted by hashing; ops = commands compared (each with a full keyspace comparison)",
         assumptions=COMMON_ASSUME + ["time is driven through CommandExecutor::set_time / update_time_readonly / evict_expired_direct with a fixed epoch; release flavour (debug assertions of the repo are not part of this property)"],
-        legs=[leg("model", "c01-model", "rel", quick=6, thorough=16)],
+        legs=[
+            leg("model", "c01-model", "rel", quick=6, thorough=16),
+            leg("sharded", "c01-sharded", "rel", quick=3, thorough=16),
+        ],
     ),
     "C03": dict(
         level="exploration",
